@@ -36,8 +36,8 @@ Ev(k, a, t) == [k |-> k, a |-> a, t |-> t]
 NodeEv(e) == e.k \in {"S", "Q", "M"}
 Last(s) == s[Len(s)]
 Front(s) == SubSeq(s, 1, Len(s) - 1)
-IsColl(n) == n.kind \in {"seq", "map", "set", "omap"}
-Unhashable(n) == n.kind \in {"seq", "map", "set", "omap"}        \* list, dict, set: not hashable; "obj" is
+IsColl(n) == n.kind \in {"seq", "map", "set", "omap", "pairs"}
+Unhashable(n) == n.kind \in {"seq", "map", "set", "omap", "pairs"}   \* list, dict, set: not hashable; "obj" and "app" are
 
 (***************************************************************************)
 (* H on the event list                                                     *)
@@ -59,7 +59,11 @@ Reach(h, todo, seen) == IF todo = {} THEN seen
                                  cs == {h[n].c[j] : j \in DOMAIN h[n].c}
                              IN  Reach(h, (todo \cup cs) \ (seen \cup {n}), seen \cup {n})
 KeysOf(n) == {n.c[j] : j \in {x \in DOMAIN n.c : x % 2 = 1}}
-BadKey(h, r) == \E n \in Reach(h, {r}, {}) : h[n].kind \in {"map", "set", "obj"} /\ \E k \in KeysOf(h[n]) : Unhashable(h[k])
+\* the element mappings of an !!omap / !!pairs list are taken apart into (key, value) tuples, not built as dicts: their
+\* keys need not be hashable - unless the same mapping node is also used as an ordinary node somewhere
+BuiltAsNode(h, r, n) == n = r \/ \E p \in Reach(h, {r}, {}) : h[p].kind \notin {"omap", "pairs"} /\ \E j \in DOMAIN h[p].c : h[p].c[j] = n
+BadKey(h, r) == \E n \in Reach(h, {r}, {}) : h[n].kind \in {"map", "set", "obj"} /\ BuiltAsNode(h, r, n)
+                                              /\ \E k \in KeysOf(h[n]) : Unhashable(h[k])
 
 \* Deep construction (constructor.py:61-100): the arguments of a python/object/apply node ("app") are built with
 \* deep=True: inside that region a two-phase collection is completed BEFORE it is registered, so an alias inside the
@@ -70,13 +74,17 @@ BadKey(h, r) == \E n \in Reach(h, {r}, {}) : h[n].kind \in {"map", "set", "obj"}
 DeepRegion(h, st) == LET apps == {j \in DOMAIN st : h[st[j]].kind = "app"} IN
                      IF apps = {} THEN {} ELSE {st[j] : j \in {x \in DOMAIN st : x >= (CHOOSE m \in apps : \A y \in apps : m <= y)}}
 DeepMark(h, st, t) == IF t \notin DeepRegion(h, st) THEN "none" ELSE IF h[t].kind = "app" THEN "hard" ELSE "soft"
+\* !!omap / !!pairs: every element must be a mapping with exactly one pair (constructor.py:352-394); the list itself is a
+\* two-phase object, so an alias inside an element may refer back to it
+BadPairs(h, r) == \E n \in Reach(h, {r}, {}) : h[n].kind \in {"omap", "pairs"} /\
+                    \E j \in DOMAIN h[n].c : ~(h[h[n].c[j]].kind = "map" /\ Len(h[h[n].c[j]].c) = 2)
 DocMarks(h) == {h[j].d : j \in {x \in DOMAIN h : x >= docstart}}
 
 DocDone(h, r) ==    \* compose_document(): anchors cleared; construct_document(): may fail
   /\ anchors' = [a \in Anchors |-> 0]
   /\ roots' = Append(roots, r)
   /\ docstart' = Len(evs) + 2
-  /\ outcome' = IF BadKey(h, r) THEN "unhashable_key"
+  /\ outcome' = IF BadKey(h, r) \/ BadPairs(h, r) THEN "unhashable_key"       \* both: ConstructorError
                 ELSE IF "hard" \in DocMarks(h) THEN "unconstructable"
                 ELSE IF "soft" \in DocMarks(h) THEN "deep_soft" ELSE "run"
 
@@ -124,7 +132,7 @@ Start(k, a, kind) ==
 
 End ==
   /\ outcome = "run" /\ stack # <<>>
-  /\ heap[Last(stack)].kind \in {"seq", "omap", "app"} \/ Len(heap[Last(stack)].c) % 2 = 0
+  /\ heap[Last(stack)].kind \in {"seq", "omap", "pairs", "app"} \/ Len(heap[Last(stack)].c) % 2 = 0
   /\ evs' = Append(evs, Ev("E", None, "-"))
   /\ heap' = Append(heap, [kind |-> "-", c |-> <<>>, d |-> "none"])
   /\ stack' = Front(stack)
